@@ -2,6 +2,9 @@
 from .common import *  # noqa
 
 KEYS = {"outputs", "ntimes", "y1", "f1", "err"}
+# observations whose model value is the property's specified value (a disagreement there is a failing input);
+# on the others the correspondence supports the tie and the oracle searches for the failing input
+SPEC_KEYS = {"outputs", "ntimes", "y1", "f1", "err"}
 
 
 def run(tier, seed):
